@@ -19,7 +19,7 @@ func Features(b *drv.Block) string {
 	var rec func(x *drv.Block)
 	rec = func(x *drv.Block) {
 		switch x.Kind {
-		case "xor", "par", "incl", "loop", "sub", "side":
+		case "xor", "par", "incl", "loop", "sub", "side", "drop":
 			set[x.Kind] = true
 		}
 		for _, k := range x.Kids {
@@ -101,6 +101,12 @@ func init() {
 					progs = append(progs, v)
 				}
 			}
+		}
+		// a token that ends silently at a task (its only outgoing flow is conditional and false)
+		// while its sibling already waits at the inclusive join (seed c01-5)
+		for _, v := range []*drv.Block{drv.Seq(drv.Drop(), drv.T()), drv.Incl(-1, drv.T(), drv.Drop()), drv.Incl(-1, drv.Drop(), drv.T()),
+			drv.Incl(-1, drv.Drop(), drv.Drop()), drv.Incl(2, drv.T(), drv.Drop(), drv.T())} {
+			progs = append(progs, v)
 		}
 		for i, b := range progs {
 			sc := Scenario("C01", i, b, 0)
